@@ -496,6 +496,8 @@ pub fn run_c16(rep: &Report) -> i32 {
     rep.add("session_states", g.nodes.len() as u64);
     rep.add("session_edges", g.edges);
     rep.note(format!("session graph: {} states, {} edges, depth {}{}", g.nodes.len(), g.edges, g.depth_reached, if g.fixpoint { " (fixpoint)" } else { " (depth bound)" }));
+    // the way the process was started is earlier context too
+    startup_option_sessions(rep);
     let probes = probes();
     // fresh engine: handshake + probe only
     let fresh: Vec<Outcome> = run_parallel(probes.len(), |i| run_session(&probes[i], &default_opts()));
@@ -1415,6 +1417,165 @@ pub fn pos_of_command(line: &str) -> Option<Pos> {
         }
     }
     Some(pos)
+}
+
+/// The engine started with each of its command-line options (they are for the bench and self-play modes; in
+/// UCI mode they must change nothing): `-d k` for every accepted k, `--depth=k`, `-S`, `-f <valid FEN>` and
+/// pairs of them. The same short session must give exactly the replies of an engine started without options.
+pub fn startup_option_sessions(rep: &Report) -> u64 {
+    require_binaries();
+    let session = vec![c(POSITIONS[0]), go(GO_TIMED, 60), c("isready"), c(POSITIONS[3]), c("go"), c("isready"), c(POSITIONS[2]), go(GO_TIMED, 25), c("isready")];
+    let mut arg_sets: Vec<Vec<String>> = Vec::new();
+    for k in (0..=12).chain([30, 50, 97, 98]) {
+        arg_sets.push(vec!["-d".to_string(), k.to_string()]);
+    }
+    for k in [0, 1, 2, 6] {
+        arg_sets.push(vec![format!("--depth={}", k)]);
+        arg_sets.push(vec!["-S".to_string(), "-d".to_string(), k.to_string()]);
+        arg_sets.push(vec!["-f".to_string(), "4k3/8/8/8/8/8/8/4K2R w K - 0 1".to_string(), "-d".to_string(), k.to_string()]);
+    }
+    arg_sets.push(vec!["-S".to_string()]);
+    arg_sets.push(vec!["--simple-print".to_string()]);
+    arg_sets.push(vec!["-f".to_string(), "8/8/8/8/8/5k2/7p/7K b - - 0 1".to_string()]);
+    arg_sets.push(vec!["--fen=7k/5Q2/6K1/8/8/8/8/8 b - - 0 1".to_string()]);
+    let base = run_session(&session, &default_opts());
+    if base.timed_out || base.states.len() != session.len() {
+        rep.fail("C08", "session-hangs", "the option-free baseline session had to be killed".to_string(), session_json(&session));
+        return 0;
+    }
+    let base_replies = replies(&base);
+    run_parallel(arg_sets.len(), |i| {
+        let mut opts = default_opts();
+        opts.args = arg_sets[i].clone();
+        let o = run_session(&session, &opts);
+        let case = session_json(&session).set("command_line_arguments", J::strs(&arg_sets[i].iter().map(|s| s.as_str()).collect::<Vec<_>>()));
+        let answered = o.stdout.iter().filter(|l| l.starts_with("bestmove")).count();
+        if o.timed_out || answered != 3 || o.states.len() != session.len() {
+            rep.fail("C08", "go-not-answered/engine-started-with-options", format!("started with {:?}: {} of 3 go commands answered, {} of {} commands handled, killed {}", arg_sets[i], answered, o.states.len(), session.len(), o.timed_out), case.clone());
+            rep.fail("C16", "replies-depend-on-start-up-options", format!("started with {:?}: {} of 3 go commands answered", arg_sets[i], answered), case);
+            return;
+        }
+        let r = replies(&o);
+        if r != base_replies {
+            let first = r.iter().zip(base_replies.iter()).position(|(a, b)| a != b).unwrap_or(r.len().min(base_replies.len()));
+            rep.fail("C16", "replies-depend-on-start-up-options", format!("started with {:?}: reply {} is {:?}, without options it is {:?}", arg_sets[i], first + 1, r.get(first), base_replies.get(first)), case);
+        }
+    });
+    rep.add("sessions_on_an_engine_started_with_command_line_options", arg_sets.len() as u64);
+    arg_sets.len() as u64
+}
+
+/// Positions in which the side to move has exactly ONE legal move, by class of that move (en passant,
+/// promotion, king move, ...), taken from the small-scope families: `go` must answer with that move — with
+/// logging off and on — and the engine must serve the rest of the session.
+pub fn forced_move_sessions(rep: &Report) -> u64 {
+    require_binaries();
+    let per_class: usize = if rep.quick() { 12 } else { 120 };
+    let mut by_class: BTreeMap<String, Vec<Pos>> = BTreeMap::new();
+    let mut consider = |p: &Pos| {
+        let legal = p.legal_moves();
+        if legal.len() != 1 {
+            return;
+        }
+        let m = &legal[0];
+        let class = if p.is_en_passant(m) {
+            "en-passant"
+        } else if m.promo != 0 {
+            if p.is_capture(m) { "promotion-with-capture" } else { "promotion" }
+        } else if rules::kind_of(p.b[m.from as usize]) == rules::K {
+            if p.is_capture(m) { "king-captures" } else { "king-move" }
+        } else if p.is_capture(m) {
+            "capture"
+        } else {
+            "quiet-move"
+        };
+        let key = format!("{}/{}", class, if p.stm == rules::WHITE { "white" } else { "black" });
+        let v = by_class.entry(key).or_default();
+        if v.len() < per_class {
+            v.push(*p);
+        }
+    };
+    for c in [rules::WHITE, rules::BLACK] {
+        for f in 0..8i8 {
+            for side in 0..3usize {
+                for p in crate::e1_posgraph::family_ep_side_thin(c, f, side, false) {
+                    consider(&p);
+                }
+            }
+            for p in crate::e1_posgraph::family_promo(c, false, f) {
+                consider(&p);
+            }
+        }
+    }
+    for wk in [0u8, 7, 27, 56, 63] {
+        for p in crate::e1_posgraph::family_kkx(wk..wk + 1) {
+            consider(&p);
+        }
+    }
+    let mut jobs: Vec<(String, Pos, bool)> = Vec::new();
+    for (k, v) in &by_class {
+        for p in v {
+            for logging in [false, true] {
+                jobs.push((k.clone(), *p, logging));
+            }
+        }
+    }
+    let classes: Vec<String> = by_class.iter().map(|(k, v)| format!("{} x{}", k, v.len())).collect();
+    rep.note(format!("forced-move sessions: {}", classes.join(", ")));
+    run_parallel(jobs.len(), |i| {
+        let (class, p, logging) = &jobs[i];
+        let only = p.legal_moves()[0];
+        let mut s: Vec<Cmd> = Vec::new();
+        if *logging {
+            s.push(c("setoption name DebugLogLevel value Info"));
+        }
+        s.push(c(&format!("position fen {}", p.fen())));
+        s.push(c("go"));
+        s.push(c("isready"));
+        s.push(c(POSITIONS[0]));
+        s.push(go(GO_TIMED, 30));
+        s.push(c("isready"));
+        let o = run_session(&s, &default_opts());
+        let best: Vec<String> = o.stdout.iter().filter_map(|l| bestmove_of(l)).collect();
+        let readys = o.stdout.iter().filter(|l| *l == "readyok").count();
+        let ctx = format!("{}{}", class, if *logging { "/logging-on" } else { "" });
+        if best.first().map(|b| b.as_str()) != Some(only.uci().as_str()) {
+            rep.fail("C03", &format!("only-legal-move-not-answered/{}", ctx), format!("{}: the only legal move is {}, go is answered with {:?}", p.fen(), only.uci(), best.first()), session_json(&s));
+        }
+        if o.timed_out || best.len() != 2 || readys != 2 || o.states.len() != s.len() {
+            rep.fail("C08", &format!("not-responsive-after-a-forced-move/{}", ctx), format!("{}: after the go on this position {} of 2 bestmove and {} of 2 readyok lines arrive, {} of {} commands are handled, exit {:?}", p.fen(), best.len(), readys, o.states.len(), s.len(), o.exit_code), session_json(&s));
+        }
+    });
+    rep.add("forced_move_sessions", jobs.len() as u64);
+    jobs.len() as u64
+}
+
+/// C11 end to end: on roots with a mate in one, `go` under a clock that expires after iteration 1 has finished
+/// (three expiry points per root) must be answered with a mating move — the move the I/O thread holds when it
+/// answers, in the text it prints, not only the board the search sent last.
+pub fn mate_in_one_sessions(rep: &Report, roots: &[(Pos, Vec<u64>)]) -> u64 {
+    require_binaries();
+    let jobs: Vec<(usize, u64)> = roots.iter().enumerate().flat_map(|(i, (_, ks))| ks.iter().map(move |k| (i, *k))).collect();
+    run_parallel(jobs.len(), |j| {
+        let (i, k) = jobs[j];
+        let pos = &roots[i].0;
+        let s = vec![c(&format!("position fen {}", pos.fen())), go(GO_TIMED, k), c("isready")];
+        let o = run_session(&s, &default_opts());
+        let best: Vec<String> = o.stdout.iter().filter_map(|l| bestmove_of(l)).collect();
+        if o.timed_out || best.len() != 1 {
+            rep.fail("C08", "session-hangs", format!("{}: go with expiry index {} gave {} bestmove lines", pos.fen(), k, best.len()), session_json(&s));
+            return;
+        }
+        match Mv::from_uci(&best[0]) {
+            Some(m) if pos.legal_moves().contains(&m) => {
+                if !pos.make(&m).is_checkmate() {
+                    rep.fail("C11", "mate-in-one-not-played/through-the-binary", format!("{}: the clock expires at consultation {} (iteration 1 has finished), the engine plays {} which does not mate", pos.fen(), k, best[0]), session_json(&s));
+                }
+            }
+            _ => rep.fail("C03", "bestmove-illegal-or-malformed", format!("{}: '{}'", pos.fen(), best[0]), session_json(&s)),
+        }
+    });
+    jobs.len() as u64
 }
 
 /// One step of an interactive real-time session (the way a GUI drives the engine)
